@@ -62,9 +62,12 @@ def gen(R, tier):
                 if [a, b] not in edges and n > 2:
                     edges.append([a, b])
         spec = dict(kind=kind, n=n, edges=edges)
+        if R.chance(0.4):
+            # bond orders as on coarse graphs, including order-0 ('.') edges: every edge counts for the scale
+            spec['orders'] = [R.choice([0, 0, 1, 2, 3]) for _ in edges]
     spec['relabel'] = R.choice(['str', 'shift', 'reverse'])
     return dict(input=spec, bond=round(R.choice([R.uniform(0.1, 1.0), 1.0, R.uniform(1.0, 10.0)]), 4),
-                np_seed=R.randint(0, 2 ** 31 - 1), features=['kind:' + kind, 'relabel:' + spec['relabel']] + (['nodes>=50'] if spec.get('n', 0) >= 50 else []))
+                np_seed=R.randint(0, 2 ** 31 - 1), features=['kind:' + kind, 'relabel:' + spec['relabel']] + (['edge_orders_incl_0'] if spec.get('orders') else []) + (['nodes>=50'] if spec.get('n', 0) >= 50 else []))
 
 
 def build(spec):
@@ -74,8 +77,9 @@ def build(spec):
         return fine
     g = nx.Graph()
     g.add_nodes_from(range(spec['n']))
-    for a, b in spec['edges']:
-        g.add_edge(a, b, order=1)
+    orders = spec.get('orders') or [1] * len(spec['edges'])
+    for (a, b), o in zip(spec['edges'], orders):
+        g.add_edge(a, b, order=o)
     return g
 
 
